@@ -4,6 +4,7 @@ import os
 import random
 import re
 import subprocess
+import time
 from pathlib import Path
 
 from vf import build, dtwmon, gen, monitors, native_build
@@ -118,23 +119,44 @@ def native(tier, seed, scratch):
     results = []
     pending = list(jobs)
     tmo = 1500 if tier == "quick" else 7000
+    t_start = time.time()
     while pending or running:
         while pending and len(running) < ncpu:
             fl, exe, part = pending.pop(0)
             inp = "".join(" ".join(str(x) for x in c) + "\n" for c in part)
-            p = subprocess.Popen([str(exe)], stdin=subprocess.PIPE, stdout=subprocess.PIPE, stderr=subprocess.PIPE,
-                                 text=True, env=env)
-            running.append((p, fl, part, inp))
-            p.stdin.write(inp)
-            p.stdin.close()
+            # files, not pipes: a pipe that nobody drains while we wait deadlocks the harness on large shards
+            jn = len(jobs) - len(pending)
+            base = out / ("job-%s-%d" % (fl, jn))
+            base.with_suffix(".in").write_text(inp)
+            fi = open(base.with_suffix(".in"))
+            fo = open(base.with_suffix(".out"), "w+")
+            fe = open(base.with_suffix(".err"), "w+")
+            p = subprocess.Popen([str(exe)], stdin=fi, stdout=fo, stderr=fe, text=True, env=env)
+            fi.close()
+            running.append((p, fl, part, (fo, fe)))
         still = []
         for item in running:
             p, fl, part, inp = item
             if p.poll() is None:
                 still.append(item)
                 continue
-            results.append((fl, part, p.returncode, p.stdout.read(), p.stderr.read()))
+            fo, fe = inp
+            fo.seek(0)
+            fe.seek(0)
+            results.append((fl, part, p.returncode, fo.read(), fe.read()))
+            fo.close()
+            fe.close()
         running = still
+        if running and time.time() - t_start > tmo:
+            # generous wall-clock watchdog: firing is inconclusive, never a violation
+            for p, fl, part, (fo, fe) in running:
+                p.kill()
+                p.wait()
+                fo.close()
+                fe.close()
+                inconc.append("native %s harness shard exceeded the %ds watchdog" % (fl, tmo))
+            running = []
+            pending = []
         if running:
             try:
                 running[0][0].wait(timeout=0.2)
